@@ -499,4 +499,9 @@ func genC02(g *Gen) {
 	// source finds nothing to do (kind 0204)
 	c02ResyncDirected(g)
 	genRecvCases(g, 0x0204, g.Vol(300, 5000), false)
+
+	// (g) histories through the real Send/Receive, source and destination listed by the real
+	// walks (kind 0205)
+	c02HistoryDirected(g)
+	c02HistoryRandom(g, g.Vol(150, 3000))
 }
